@@ -307,3 +307,15 @@ Print Assumptions slice_obs_is_source.
 Theorem slice_samp_is_source : forall data keep, out_res (slice_samp_gen data keep) = Some (slice_samp data keep).
 Proof. exact slice_samp_bridge. Qed.
 Print Assumptions slice_samp_is_source.
+
+(* direct_slice_data (parse.py:116-175) regenerated whole: the axis test, the three key lookups with
+   their ValueError, the shape parsed with split / replace / int (ValueError), the data text cut out
+   with find and a slice, min / max bounds checks (ValueError on an empty request, IndexError out of
+   bounds), the "[%d, %d]" shape, the dispatch to the obs / samp slicer and the final f-string.  The
+   source takes the axis as a str, the model as `axis`: `axis_text Obs` = "observation",
+   `axis_text Samp` = "sample" (Proofs/GenBridgeSlicerProofs.v); requested indices are naturals on
+   both sides. *)
+Theorem direct_slice_data_is_source : forall s keep a,
+  out_res (direct_slice_data_gen s keep (axis_text a)) = Some (direct_slice_data s keep a).
+Proof. exact direct_slice_data_bridge. Qed.
+Print Assumptions direct_slice_data_is_source.
